@@ -865,8 +865,21 @@ func (vm *VirtualMachine) callFunction(
 	baseIP := vm.ip
 	baseSP := vm.sp
 
-	// Restore the previous frame when done
-	defer vm.resumeFrame(baseFP, baseIP, baseSP)
+	// Restore the previous frame when done. Unless the call returned normally
+	// (its result already popped), whatever it left on the operand stack are
+	// operands of an interrupted expression, not a result: discard them first.
+	returned := false
+	defer func() {
+		if !returned {
+			for i := vm.sp; i > baseSP; i-- {
+				vm.stack[i] = nil
+			}
+			if vm.sp > baseSP {
+				vm.sp = baseSP
+			}
+		}
+		vm.resumeFrame(baseFP, baseIP, baseSP)
+	}()
 
 	// Assemble frame local variables in vm.tmp. The local variable order is:
 	// 1. Function parameters
@@ -909,14 +922,9 @@ func (vm *VirtualMachine) callFunction(
 
 	// Evaluate the function code then return the result from TOS
 	if err := vm.eval(ctx); err != nil {
-		// Discard the operands of the interrupted expression. Otherwise the
-		// resumed frame would mistake the topmost one for a result and keep it.
-		for i := vm.sp; i > baseSP; i-- {
-			vm.stack[i] = nil
-		}
-		vm.sp = baseSP
 		return nil, err
 	}
+	returned = true
 	return vm.pop(), nil
 }
 
